@@ -165,6 +165,24 @@ def regexActive (c : Char) : Bool :=
   c = '+' || c = '^' || c = '$' || c = ')' || c = ']' || c = '}' || c = '{' || c = '(' ||
   c = '[' || c = '?' || c = '|'
 
+/-- regex metacharacters: a value-list word containing one of them is a regex, not a literal
+(typhon joins the values with `'|'` without `re.escape`) -/
+def metaChar (c : Char) : Bool :=
+  c = '.' || c = '+' || c = '*' || c = '?' || c = '^' || c = '$' || c = '(' || c = ')' ||
+  c = '[' || c = ']' || c = '{' || c = '}' || c = '|' || c = '\\'
+
+/-- characters with a special meaning inside `[...]` -/
+def clsMeta (c : Char) : Bool := c = '^' || c = ']' || c = '\\' || c = '-' || c = '['
+
+/-- the user regexes whose source text means what the model's literal reading says: value-list
+words free of regex metacharacters; non-empty character classes with ordered ranges whose
+endpoints are no class syntax.  Everything else is outside the modelled fragment. -/
+def URegex.plain : URegex → Bool
+  | .alt ws => ws.all (fun w => w.all (fun c => !metaChar c))
+  | .cls rs _ => !rs.isEmpty &&
+      rs.all (fun r => decide (r.1.toNat ≤ r.2.toNat) && !clsMeta r.1 && !clsMeta r.2)
+  | _ => true
+
 abbrev Caps := List (Key × List Char)
 
 /-- the regex item of one token; a placeholder captures only at its first occurrence
@@ -179,7 +197,8 @@ def compileTok (cfg : Cfg) (seen : List Key) : Tok → Except Err ((Item × Opti
     match cfg.regexOf n with
     | none => .error .unknownPlaceholder
     | some r =>
-      if seen.contains (.user n) then .ok ((r.item, none), seen)
+      if !r.plain then .error .regexError          -- outside the modelled fragment
+      else if seen.contains (.user n) then .ok ((r.item, none), seen)
       else .ok ((r.item, some (.user n)), .user n :: seen)
 
 /-- `_fill_placeholders`: one regex item per token -/
